@@ -23,6 +23,7 @@ func init() {
 		Controls: []Control{
 			{Name: "ipv6-nlri-address-family-guessed-from-the-bytes", File: "protocols/bgp/packet/helper.go", Old: "\tip := bnet.IPv6(binary.BigEndian.Uint64(ipBytes[:8]), binary.BigEndian.Uint64(ipBytes[8:]))\n", New: "\t_ = binary.BigEndian\n\tip, err := bnet.IPFromBytes(ipBytes[:])\n\tif err != nil {\n\t\treturn nil, err\n\t}\n", Expect: "nlri-family-comes-from-the-afi"},
 			{Name: "body-length-clamped-to-the-buffer", File: "protocols/bgp/packet/decoder.go", Old: "\tbody, err := decodeMsgBody(buf, hdr.Type, hdr.Length-MinLen, opt)\n", New: "\tbodyLen := hdr.Length - MinLen\n\tif int(bodyLen) > buf.Len() {\n\t\tbodyLen = uint16(buf.Len())\n\t}\n\tbody, err := decodeMsgBody(buf, hdr.Type, bodyLen, opt)\n", Expect: "body-length-is-the-declared-length"},
+			{Name: "refactor-body-length-in-a-local", Silent: true, File: "protocols/bgp/packet/decoder.go", Old: "\tbody, err := decodeMsgBody(buf, hdr.Type, hdr.Length-MinLen, opt)\n", New: "\tbodyLen := hdr.Length - MinLen\n\tbody, err := decodeMsgBody(buf, hdr.Type, bodyLen, opt)\n"},
 			{Name: "consumed-is-what-was-read", File: "protocols/bgp/packet/path_attributes.go", Old: "\treturn pa, consumed + pa.Length, nil\n", New: "\tconsumed += uint16(0)\n\treturn pa, consumed, nil\n", Expect: "consumed-counts-the-declared-length"},
 			{Name: "next-hop-length-switch-without-default", File: "protocols/bgp/packet/mp_reach_nlri.go", Old: "\tnh, err := bnet.IPFromBytes(variable[:firstNextHopLength])\n\tif err != nil {\n\t\treturn MultiProtocolReachNLRI{}, fmt.Errorf(\"failed to decode next hop IP: %w\", err)\n\t}\n\tn.NextHop = nh.Dedup()\n", New: "\tswitch firstNextHopLength {\n\tcase 4, 16:\n\t\tnh, err := bnet.IPFromBytes(variable[:firstNextHopLength])\n\t\tif err != nil {\n\t\t\treturn MultiProtocolReachNLRI{}, fmt.Errorf(\"failed to decode next hop IP: %w\", err)\n\t\t}\n\t\tn.NextHop = nh.Dedup()\n\t}\n", Expect: "reach-nlri-carries-next-hop"},
 			{Name: "nlri-field-carved-with-next", File: "protocols/bgp/packet/nlri.go", Old: "\tfor p < length {\n\t\tnlri, consumed, err = decodeNLRI(buf, afi, safi, addPath)", New: "\tbuf = bytes.NewBuffer(buf.Next(int(length)))\n\tfor buf.Len() > 0 {\n\t\tnlri, consumed, err = decodeNLRI(buf, afi, safi, addPath)", Expect: "short-reads-are-errors"},
